@@ -630,7 +630,7 @@ func checkExcludeLoops(c *Ctx) {
 			if keepTop || keepNested {
 				// `filter` keeps conditionally by design: `if !match { r = append(r, s[i]) }`
 				if name == "filter" {
-					c.Check("R19e", "schema."+name+"|range "+lname+"|keep iff !match", loop.Pos(), keepNested && !keepTop, "filter must keep an element exactly when the predicate reports no match")
+					c.Check("R19e", "schema."+name+"|range "+lname+"|keep iff !match", loop.Pos(), filterKeepsIffNoMatch(fi, loop), "filter must keep an element exactly when the predicate reports no match")
 				} else if name != "excludeObjects" { // excludeObjects keeps per type-selector branch by design
 					okKeep := keepTop && !keepNested
 					if !okKeep && keepNested && !keepTop {
@@ -932,4 +932,70 @@ func returnsTrueOnlyOnMatch(c *Ctx, fn *types.Func, i int) bool {
 	}
 	_, leak := f.reachEx([]point{f.entry()}, nil, retTrue, matched)
 	return !leak && len(f.find(retTrue)) > 0
+}
+
+// filterKeepsIffNoMatch decides on the CFG, for the loop of the generic filter
+// helper, that the append keeping the element is reached exactly when the
+// predicate result is false: reachable from the predicate call along edges
+// that do not imply match == true, and unreachable (within the iteration) along
+// edges that do not imply match == false.
+func filterKeepsIffNoMatch(fi *FuncInfo, loop *ast.RangeStmt) bool {
+	info := fi.Info()
+	params := map[types.Object]bool{}
+	for _, fld := range fi.Decl.Type.Params.List {
+		for _, nm := range fld.Names {
+			if _, ok := info.TypeOf(fld.Type).Underlying().(*types.Signature); ok {
+				params[info.ObjectOf(nm)] = true
+			}
+		}
+	}
+	var matchObj types.Object
+	var predNode ast.Node
+	ast.Inspect(loop.Body, func(m ast.Node) bool {
+		as, ok := m.(*ast.AssignStmt)
+		if !ok || len(as.Rhs) != 1 || len(as.Lhs) == 0 {
+			return true
+		}
+		call, ok := as.Rhs[0].(*ast.CallExpr)
+		if !ok {
+			return true
+		}
+		if id, ok := call.Fun.(*ast.Ident); ok && params[info.ObjectOf(id)] {
+			if l, ok := as.Lhs[0].(*ast.Ident); ok {
+				matchObj, predNode = info.ObjectOf(l), as
+			}
+		}
+		return true
+	})
+	if matchObj == nil {
+		return false
+	}
+	f := newFlow(info, fi.Decl.Body)
+	isPred := func(n ast.Node) bool { return n == predNode }
+	isKeep := func(n ast.Node) bool {
+		as, ok := n.(*ast.AssignStmt)
+		if !ok || len(as.Rhs) != 1 {
+			return false
+		}
+		call, ok := as.Rhs[0].(*ast.CallExpr)
+		return ok && builtinName(info, call) == "append" && len(call.Args) == 2 && appendsLoopVar(info, call.Args[1], loop)
+	}
+	starts := []point{}
+	for _, pt := range f.find(isPred) {
+		starts = append(starts, after(pt))
+	}
+	if len(starts) == 0 || len(f.find(isKeep)) == 0 {
+		return false
+	}
+	implies := func(want bool) func(b *cfg.Block, si int) bool {
+		return func(b *cfg.Block, si int) bool {
+			return edgeImplies(b, si, func(e ast.Expr, val bool) bool {
+				id, ok := ast.Unparen(e).(*ast.Ident)
+				return ok && info.ObjectOf(id) == matchObj && val == want
+			})
+		}
+	}
+	_, whenFalse := f.reachEx(starts, isPred, isKeep, implies(true))
+	_, whenTrue := f.reachEx(starts, isPred, isKeep, implies(false))
+	return whenFalse && !whenTrue
 }
